@@ -42,6 +42,9 @@ pub fn dump(seed: u64, thorough: bool) {
     for (name, size, fields) in cstructs() {
         let fs: Vec<String> = fields.iter().map(|(f, o)| format!("{}:{}", f, o)).collect();
         println!("struct {} {} {}", name, size, fs.join(","));
+        if NOT_REPR_C.contains(&name) {
+            println!("FAIL C19: {} is declared without #[repr(C)]: its field offsets are unspecified (as compiled: size={} {})", name, size, fs.join(","));
+        }
     }
     let mut evaluated = 0u64;
     for (f, argty) in TO_STR_FUNCS {
